@@ -65,6 +65,34 @@ Catalogue == <<
   \* struct fields as arguments: one option, several assignments behind one (nullable / non-nullable) prefix
   Entry("args", <<RootValid, Kid, Leaf>>,
         <<Rule("args", "Root", "ok", <<"kid", "kname">>), Rule("args", "Root", "req", <<"n", "f">>)>>),
+  \* two builders of one package with same-named options behind the same nullable prefix
+  Entry("two-builders", <<
+    Def("Root", TStruct(<<F("gauge", TRef("Gauge")), FOpt("stat", TRef("Stat")), F("w", Str)>>)),
+    Def("Gauge", TStruct(<<FOpt("options", TRef("Opts")), F("g", I64)>>)),
+    Def("Stat", TStruct(<<FOpt("options", TRef("Opts")), F("s", Str)>>)),
+    Def("Opts", TStruct(<<F("unit", Str), F("decimals", TInt("int64", Ge(0), NoB))>>))>>,
+    <<Rule("unfold", "Gauge", "options", <<"unit", "decimals">>), Rule("unfold", "Stat", "options", <<"unit", "decimals">>)>>),
+  \* three chained struct-fields-as-options rules: four-segment paths, every prefix nullable, same-typed sibling leaves
+  Entry("deep-unfold", <<
+    Def("Root", TStruct(<<FOpt("fieldConfig", TRef("FC")), F("w", Str)>>)),
+    Def("FC", TStruct(<<FOpt("defaults", TRef("Defs")), F("fcn", I64)>>)),
+    Def("Defs", TStruct(<<FOpt("custom", TRef("Custom")), F("dn", I64)>>)),
+    Def("Custom", TStruct(<<FOpt("k", TInt("int64", Ge(0), Le(2))), F("x1", I64), F("x2", I64)>>))>>,
+    <<Rule("unfold", "Root", "fieldConfig", <<"defaults", "fcn">>), Rule("unfold", "Root", "defaults", <<"custom", "dn">>),
+      Rule("unfold", "Root", "custom", <<"k", "x1", "x2">>)>>),
+  \* C14 only: several builders for one object (duplicate + initialize), sharing their first constructor constant
+  Entry("flavours", <<
+    Def("Root", TStruct(<<F("series", TRef("Series")), FOpt("os", TRef("Series")), F("list", TArr(TRef("Series"))), F("w", Str)>>)),
+    Def("Series", TStruct(<<F("type", TConst(JStr("graph"))), F("mode", TEnum(<<"lines", "bars">>)), F("n", I64)>>))>>,
+    <<Rule("flavour", "Series", "LineSeries", <<"mode", "lines">>), Rule("flavour", "Series", "BarSeries", <<"mode", "bars">>)>>),
+  \* C14 only: two builders whose list of unions is filled by one appending option per branch (the second one renamed);
+  \* the type names make the two builders the last ones of the package
+  Entry("disjunction-lists", <<
+    Def("Cell", TStruct(<<F("kind", TConst(JStr("cell"))), F("x", I64)>>)),
+    Def("Chart", TStruct(<<F("kind", TConst(JStr("chart"))), F("y", Str)>>)),
+    Def("Dash", TStruct(<<F("title", Str), F("items", TArr(TDUnion("kind", <<"Cell", "Chart">>)))>>)),
+    Def("Root", TStruct(<<F("items", TArr(TDUnion("kind", <<"Cell", "Chart">>))), FOpt("dash", TRef("Dash")), F("w", Str)>>))>>,
+    <<Rule("disj", "Dash", "items", <<"Cell", "Chart">>), Rule("disj", "Root", "items", <<"addCell", "addChart">>)>>),
   \* unions: of scalars, discriminated unions of structs, arrays of them
   Entry("union", <<
     Def("Root", TStruct(<<
@@ -93,6 +121,9 @@ Catalogue == <<
     Def("WithDef", TStruct(<<FDef("ds", Str, JStr("x")), F("dn", I64)>>))>>, <<>>)
 >>
 
+\* entries whose builders C09's machine does not drive (several builders per object / per-branch options): C14 only
+C14Only == {"flavours", "disjunction-lists"}
+
 (* ------------------------- defaults the requirement gives ---------------------- *)
 RECURSIVE ZeroOf(_, _), DefaultDoc(_, _)
 ZeroOf(S, t) ==
@@ -115,12 +146,6 @@ DefaultDoc(S, t) ==
                          ELSE IF inc[i].def.j # "none" THEN inc[i].def
                          ELSE IF inc[i].null THEN JNull ELSE ZeroOf(S, inc[i].t))])
 
-\* type keys: named structs and the inline structs directly inside them
-KT(k, t) == [key |-> k, t |-> t]
-KeyTypes(schema) ==
-  LET ds == {d \in Range(schema.defs) : d.t.k = "struct"} IN
-  {KT(d.name, d.t) : d \in ds}
-  \cup UNION {{KT(d.name \o "." \o f.n, f.t) : f \in {g \in Range(d.t.fields) : g.t.k = "struct"}} : d \in ds}
 SpecD(schema) ==
   LET S == DefsFn(schema) kts == KeyTypes(schema) IN
   [k \in {x.key : x \in kts} |-> DefaultDoc(S, (CHOOSE x \in kts : x.key = k).t)]
@@ -135,15 +160,20 @@ Derive(t) ==
 ApplyRule(S, r, opts) ==
   Flat([i \in DOMAIN opts |->
     LET o == opts[i] IN
-    IF r.k = "ctor" \/ o.name # r.field THEN <<o>>
+    IF r.k = "flavour" THEN (IF o.name = r.fields[1] THEN <<>> ELSE <<o>>)     \* the flavours hide the option they fix
+    ELSE IF r.k = "ctor" \/ o.name # r.field THEN <<o>>
     ELSE CASE r.k = "unfold" ->
                 LET st == AsStruct(S, "", o.args[1]).t IN
                 [j \in DOMAIN r.fields |-> Opt(r.fields[j], <<FieldOf(st, r.fields[j]).t>>,
-                                               <<Asg(<<r.field, r.fields[j]>>, "direct", 1, 0)>>)]
+                                               <<Asg(o.asgs[1].path \o <<r.fields[j]>>, "direct", 1, 0)>>)]
            [] r.k = "args" ->
                 LET st == AsStruct(S, "", o.args[1]).t IN
                 <<Opt(o.name, [j \in DOMAIN r.fields |-> FieldOf(st, r.fields[j]).t],
-                      [j \in DOMAIN r.fields |-> Asg(<<r.field, r.fields[j]>>, "direct", j, 0)])>>
+                      [j \in DOMAIN r.fields |-> Asg(o.asgs[1].path \o <<r.fields[j]>>, "direct", j, 0)])>>
+           [] r.k = "disj" ->      \* array_to_append + disjunction_as_options (+ rename): one appending option per branch
+                LET refs == ElemType(S, o.args[1]).refs IN
+                [j \in DOMAIN refs |-> Opt(r.fields[j], <<TRef(refs[j])>>, <<Asg(o.asgs[1].path, "append", 1, 0)>>)]
+           [] r.k = "flavour" -> <<o>>
            [] r.k = "append" -> <<Opt(o.name, <<ElemType(S, o.args[1])>>, <<Asg(<<r.field>>, "append", 1, 0)>>)>>
            [] r.k = "index"  -> <<Opt(o.name, <<Str, ElemType(S, o.args[1])>>, <<Asg(<<r.field>>, "index", 2, 1)>>)>>])
 RECURSIVE ApplyRules(_, _, _, _)
@@ -256,7 +286,7 @@ SeqOfSet(s) == LET RECURSIVE go(_) go(x) == IF x = {} THEN <<>> ELSE LET e == CH
 Emit ==
   CASE Mode = "index" ->
          PrintT(<<"INDEX", ToJson([id |-> si, name |-> Catalogue[si].name, schema |-> Catalogue[si].schema,
-                                   rules |-> Catalogue[si].rules,
+                                   rules |-> Catalogue[si].rules, c09 |-> Catalogue[si].name \notin C14Only,
                                    builders |-> SeqOfSet({BTab[si][k] : k \in DOMAIN BTab[si]}),
                                    defaults |-> SeqOfSet({[key |-> k, obj |-> DTab[si][k]] : k \in DOMAIN DTab[si]})])>>)
     [] Mode = "cases" ->
@@ -266,5 +296,5 @@ Emit ==
     [] Mode \in {"values", "pairs"} ->
          PrintT(<<"VALUE", ToJson([id |-> si, key |-> vk, v |-> vv,
                                    differs |-> SeqOfSet(Differs(STab[si][vk], DTab[si], vk, vv)),
-                                   needed |-> SeqOfSet({BTab[si][vk].opts[i].name : i \in NeededOpts(DTab[si], vk, BTab[si][vk], vv)})])>>)
+                                   needed |-> SeqOfSet({BTab[si][vk].opts[i].name : i \in NeededOpts(STab[si], STab[si][vk], DTab[si], vk, BTab[si][vk], vv)})])>>)
 ===============================================================================
